@@ -48,8 +48,9 @@ class Row:
 
 
 class InverseExec:
-    def __init__(self, fn: ast.FunctionDef) -> None:
+    def __init__(self, fn: ast.FunctionDef, consts: dict[str, Any] | None = None) -> None:
         self.fn = fn
+        self.consts = consts or {}      # module-level numeric constants bound once (Classes.consts)
         self.selfname = _params(fn)[0]
         self.env: dict[str, Any] = {}
         self.ops: list[tuple] = []
@@ -69,6 +70,8 @@ class InverseExec:
         if isinstance(n, ast.UnaryOp) and isinstance(n.op, ast.USub):
             v = self.const(n.operand)
             return None if v is None else -v
+        if isinstance(n, ast.Name) and n.id not in self.env and n.id in self.consts:
+            return self.consts[n.id]
         return None
 
     def int_of(self, n: ast.expr) -> int:
@@ -433,6 +436,14 @@ class InverseExec:
             if isinstance(op, (ast.Eq, ast.Is)) and only_raise and rc == pv[5]:
                 self.env[left.id] = pv[:6] + (True,)
                 return
+            # any other comparison with a number that holds for the sentinel and for none of the rows the search can
+            # select (`pivrow < 0` with sentinel -1) is the same missing-pivot test
+            cmpf = {ast.Lt: lambda a, b: a < b, ast.LtE: lambda a, b: a <= b, ast.Gt: lambda a, b: a > b,
+                    ast.GtE: lambda a, b: a >= b, ast.Eq: lambda a, b: a == b}.get(type(op))
+            if only_raise and cmpf is not None and rc is not None and pv[5] is not None \
+                    and cmpf(pv[5], rc) and not any(cmpf(r, rc) for r in pv[2]):
+                self.env[left.id] = pv[:6] + (True,)
+                return
             # if pivrow != n: swap both; pivrow = n
             if isinstance(op, ast.NotEq):
                 n = self.idx(right)
@@ -548,7 +559,7 @@ def analyse() -> dict:
         fn = m1[1]
         if len(_params(fn)) != 1:
             raise TranslateError('inverse: signature')
-        P = InverseExec(fn).run()
+        P = InverseExec(fn, C.consts).run()
         _CACHE.update(text=text, P=P, digest=ast_digest(fn))
     return _CACHE
 
